@@ -27,6 +27,16 @@ Proof. reflexivity. Qed.
 Lemma repeat_length_eq : forall k, length (repeat 1 k) = k.
 Proof. intros k. apply repeat_length. Qed.
 
+Lemma map_result_idempotent : forall A (f : A -> result A) l l',
+  (forall s s', f s = Ok s' -> f s' = Ok s') -> map_result f l = Ok l' -> map_result f l' = Ok l'.
+Proof.
+  intros A f l. induction l as [|a t IH]; intros l' Hf H.
+  - cbn [map_result] in H. inversion H. reflexivity.
+  - cbn [map_result] in H. destruct (f a) as [b|e] eqn:Fa; [|discriminate].
+    destruct (map_result f t) as [bs|e] eqn:Ft; [|discriminate]. inversion H. subst l'.
+    cbn [map_result]. rewrite (Hf a b Fa). rewrite (IH bs Hf eq_refl). reflexivity.
+Qed.
+
 (* ---- ensure_1d_with_singleton: complete case analysis ------------------------------------- *)
 Lemma e1d_vector : forall n, e1d_one [n] = Ok [n; 1].
 Proof. reflexivity. Qed.
@@ -109,13 +119,14 @@ Proof.
   - intros H. destruct s as [|n t].
     + left. cbv in H. inversion H. auto.
     + right. destruct (all_ones t) eqn:E.
-      * apply all_ones_true in E. exists n, (length t). split; [rewrite <- E; reflexivity|].
+      * apply all_ones_true in E. remember (length t) as k eqn:Hk. clear Hk. subst t.
+        exists n, k. split; [reflexivity|].
         destruct (Nat.eq_dec n 1) as [->|Hn].
-        -- destruct (length t) as [|[|k]] eqn:L.
-           ++ split; [right; lia|]. rewrite E, L in H. cbn [repeat] in H. rewrite e1d_vector in H. inversion H. reflexivity.
-           ++ split; [right; lia|]. rewrite E, L in H. cbn [repeat] in H. rewrite e1d_column in H. inversion H. reflexivity.
-           ++ exfalso. rewrite E, L in H. rewrite e1d_one_sample_corner in H. discriminate.
-        -- split; [left; exact Hn|]. rewrite E in H. rewrite singleton_layouts_normalise in H by (left; exact Hn).
+        -- destruct k as [|[|k]].
+           ++ split; [right; lia|]. cbn [repeat] in H. rewrite e1d_vector in H. inversion H. reflexivity.
+           ++ split; [right; lia|]. cbn [repeat] in H. rewrite e1d_column in H. inversion H. reflexivity.
+           ++ exfalso. rewrite e1d_one_sample_corner in H. discriminate.
+        -- split; [left; exact Hn|]. rewrite singleton_layouts_normalise in H by (left; exact Hn).
            inversion H. reflexivity.
       * exfalso. rewrite multi_column_rejected in H; [discriminate|discriminate|].
         intros [n' [k Hs]]. inversion Hs. subst. rewrite all_ones_repeat in E. discriminate.
@@ -160,44 +171,70 @@ Qed.
 (* ---- ensure_vector ------------------------------------------------------------------------ *)
 Theorem ev_spec : forall s,
   ev_one s = match s with
-             | n :: 1 :: t => Ok (n :: t)
-             | _ :: _ :: _ => Err ValueErr
-             | _ => Ok s
+             | [] => Ok []
+             | [n] => Ok [n]
+             | [n; 1] => Ok [n]
+             | _ => Err ValueErr
              end.
 Proof.
-  intros s. destruct s as [|n [|m t]]; [reflexivity|reflexivity|].
-  unfold ev_one. cbn [length nth].
-  replace (1 <? S (S (length t))) with true by (symmetry; apply Nat.ltb_lt; lia). cbn [andb].
-  destruct m as [|[|m]]; reflexivity.
+  intros s. destruct s as [|n [|m [|c t]]]; [reflexivity|reflexivity| |].
+  - unfold ev_one. cbn [length nth Nat.ltb Nat.leb andb]. destruct m as [|[|m]]; reflexivity.
+  - unfold ev_one. cbn [length].
+    replace (2 <? S (S (S (length t)))) with true by (symmetry; apply Nat.ltb_lt; lia).
+    destruct m as [|[|m]]; reflexivity.
 Qed.
 
 Theorem vector_layouts_normalise : forall n, ev_one [n] = Ok [n] /\ ev_one [n; 1] = Ok [n].
 Proof. intros n. split; reflexivity. Qed.
 
-Theorem ev_multi_column_rejected : forall n m t, m <> 1 -> ev_one (n :: m :: t) = Err ValueErr.
-Proof. intros n m t Hm. rewrite ev_spec. destruct m as [|[|m]]; [reflexivity|contradiction|reflexivity]. Qed.
-
-Theorem ev_idempotent_upto_rank2 : forall s s', length s <= 2 -> ev_one s = Ok s' -> ev_one s' = Ok s'.
+(* everything else of rank >= 2 is rejected: several columns, or more than two axes *)
+Theorem ev_multi_column_rejected : forall s,
+  2 <= length s -> (forall n, s <> [n; 1]) -> ev_one s = Err ValueErr.
 Proof.
-  intros s s' Hl H. rewrite ev_spec in H.
-  destruct s as [|n [|m t]].
-  - inversion H. reflexivity.
-  - inversion H. reflexivity.
-  - destruct t as [|c t]; [|cbn [length] in Hl; lia].
-    destruct m as [|[|m]]; try discriminate. inversion H. reflexivity.
+  intros s Hl Hn. rewrite ev_spec. destruct s as [|n [|m [|c t]]]; cbn [length] in Hl; try lia.
+  - destruct m as [|[|m]]; [reflexivity| |reflexivity]. elim (Hn n). reflexivity.
+  - destruct m as [|[|m]]; reflexivity.
 Qed.
 
-(* the `ndim > 2` branch of ensure_vector is shadowed: a rank-3 array with a singleton second axis is
-   accepted and comes back as a 2-d array, not as a vector *)
-Theorem ev_rank3_not_a_vector : forall n m, ev_one [n; 1; m] = Ok [n; m].
-Proof. intros n m. rewrite ev_spec. reflexivity. Qed.
-
-Theorem ev_preserves_size : forall s s', ev_one s = Ok s' -> shape_size s' = shape_size s /\ hd 0 s' = hd 0 s.
+Theorem ev_accepts_iff : forall s s',
+  ev_one s = Ok s' <-> (s = [] /\ s' = []) \/ exists n, (s = [n] \/ s = [n; 1]) /\ s' = [n].
 Proof.
-  intros s s' H. rewrite ev_spec in H.
-  destruct s as [|n [|m t]]; try (inversion H; split; reflexivity).
-  destruct m as [|[|m]]; try discriminate. inversion H. split; [|reflexivity].
-  rewrite !shape_size_cons. lia.
+  intros s s'. rewrite ev_spec. split.
+  - intros H. destruct s as [|n [|m [|c t]]].
+    + inversion H. left. auto.
+    + inversion H. right. exists n. auto.
+    + destruct m as [|[|m]]; try discriminate. inversion H. right. exists n. auto.
+    + destruct m as [|[|m]]; discriminate.
+  - intros [[-> ->]|[n [[->| ->] ->]]]; reflexivity.
+Qed.
+
+Theorem ev_result_is_vector : forall s s', s <> [] -> ev_one s = Ok s' -> s' = [hd 0 s] /\ shape_size s' = shape_size s.
+Proof.
+  intros s s' Hne H. apply ev_accepts_iff in H. destruct H as [[-> _]|[n [[->| ->] ->]]]; [contradiction| |];
+    split; reflexivity.
+Qed.
+
+Theorem ev_idempotent : forall s s', ev_one s = Ok s' -> ev_one s' = Ok s'.
+Proof.
+  intros s s' H. apply ev_accepts_iff in H. destruct H as [[_ ->]|[n [_ ->]]]; reflexivity.
+Qed.
+
+Theorem ensure_vector_idempotent : forall l l', ensure_vector l = Ok l' -> ensure_vector l' = Ok l'.
+Proof. intros l l'. apply map_result_idempotent. exact ev_idempotent. Qed.
+
+(* the code before the repair: the `ndim > 2` test came last and was shadowed, so a rank-3 array with a
+   singleton second axis was accepted and came back 2-d (several columns included), not as a vector *)
+Theorem ev_rank3_accepted_v0 : forall n m, ev_one_v0 [n; 1; m] = Ok [n; m].
+Proof. reflexivity. Qed.
+
+Theorem ev_multi_column_rejected_v0_refuted : exists s s',
+  2 <= length s /\ (forall n, s <> [n; 1]) /\ ev_one_v0 s = Ok s' /\ length s' = 2.
+Proof. exists [5; 1; 2], [5; 2]. repeat split; try (cbn; lia). intros n; discriminate. Qed.
+
+Theorem ev_v0_agrees : forall s, length s <= 2 -> ev_one_v0 s = ev_one s.
+Proof.
+  intros s Hl. destruct s as [|n [|m [|c t]]]; [reflexivity|reflexivity| |cbn [length] in Hl; lia].
+  destruct m as [|[|m]]; reflexivity.
 Qed.
 
 (* ---- ensure_2d ---------------------------------------------------------------------------- *)
@@ -214,8 +251,7 @@ Qed.
 
 Theorem e2d_preserves_size : forall s s', e2d_one s = Ok s' -> shape_size s' = shape_size s /\ hd 0 s' = hd 0 s.
 Proof.
-  intros s s' H. rewrite e2d_spec in H. destruct s as [|n [|m t]]; inversion H; split; try reflexivity.
-  cbn [shape_size fold_right]. lia.
+  intros s s' H. rewrite e2d_spec in H. destruct s as [|n [|m t]]; inversion H; split; reflexivity.
 Qed.
 
 Lemma e2d_total : forall s, exists s', e2d_one s = Ok s'.
@@ -255,7 +291,7 @@ Proof.
         destruct l1 as [|y l1].
         -- cbn [app] in Hl. inversion Hl. subst. rewrite Fa in Hx. discriminate.
         -- cbn [app] in Hl. inversion Hl. subst. inversion Hall as [|? ? _ Hall'].
-           assert (E : Err e'' = Err e) by (apply IH; exists l1, x, l2; auto). discriminate.
+           assert (E : @Ok (list B) bs = Err e) by (apply IH; exists l1, x, l2; auto). discriminate.
       * split.
         -- intros H. inversion H. subst e''. destruct (proj1 IH eq_refl) as [l1 [x [l2 [Hl [Hall Hx]]]]].
            exists (a :: l1), x, l2. subst t. split; [reflexivity|]. split; [|exact Hx].
@@ -267,15 +303,8 @@ Proof.
     + split.
       * intros H. inversion H. subst e'. exists [], a, t. split; [reflexivity|]. split; [constructor|exact Fa].
       * intros [l1 [x [l2 [Hl [Hall Hx]]]]]. destruct l1 as [|y l1].
-        -- cbn [app] in Hl. inversion Hl. subst. rewrite Fa in Hx. exact Hx.
+        -- cbn [app] in Hl. inversion Hl. subst. rewrite Fa in Hx. inversion Hx. reflexivity.
         -- cbn [app] in Hl. inversion Hl. subst. inversion Hall as [|? ? [b Hb] _]. rewrite Fa in Hb. discriminate.
-Qed.
-
-Lemma map_result_idempotent : forall A (f : A -> result A) l l',
-  (forall s s', f s = Ok s' -> f s' = Ok s') -> map_result f l = Ok l' -> map_result f l' = Ok l'.
-Proof.
-  intros A f l l' Hf H. apply map_result_ok_iff in H. apply map_result_ok_iff.
-  induction H as [|a b l1 l2 Hab _ IH]; constructor; [apply (Hf a); exact Hab|exact IH].
 Qed.
 
 Theorem ensure_1d_with_singleton_idempotent : forall l l',
@@ -385,8 +414,8 @@ Proof.
   destruct (map_result (compared_dims dim r0) (s0 :: t)) as [ds|e] eqn:M.
   - apply map_compared_ok in M. destruct M as [Hall ->].
     destruct (all_same (map (dims_of dim r0) (s0 :: t))) eqn:A.
-    + apply all_same_map in A. split; [intros _; split; assumption|reflexivity].
-    + split; [discriminate|]. intros [_ H]. apply all_same_map in H. congruence.
+    + pose proof (proj1 (all_same_map (dims_of dim r0) s0 t) A) as A'. split; [intros _; split; assumption|reflexivity].
+    + split; [discriminate|]. intros [_ H]. pose proof (proj2 (all_same_map (dims_of dim r0) s0 t) H) as H'. pose proof (eq_trans (eq_sym H') A) as X. discriminate X.
   - apply map_compared_err in M. destruct M as [_ Hn]. split; [discriminate|]. intros [H _]. contradiction.
 Qed.
 
@@ -399,6 +428,16 @@ Proof.
   - apply map_compared_ok in M. destruct M as [Hall _].
     destruct (all_same ds); split; try discriminate; intros H; contradiction.
   - apply map_compared_err in M. destruct M as [-> Hn]. split; [intros _; exact Hn|reflexivity].
+Qed.
+
+Lemma dims_scan : forall (f : shape -> list nat) d0 l,
+  Exists (fun s => f s <> d0) l \/ Forall (fun s => f s = d0) l.
+Proof.
+  intros f d0 l. induction l as [|s t IH].
+  - right. constructor.
+  - destruct (list_eq_dec Nat.eq_dec (f s) d0) as [Hs|Hs].
+    + destruct IH as [IH|IH]; [left; apply Exists_cons_tl; exact IH|right; constructor; assumption].
+    + left. apply Exists_cons_hd. exact Hs.
 Qed.
 
 Theorem equal_dims_value_error : forall l dim, l <> [] ->
@@ -420,16 +459,9 @@ Proof.
       - apply map_compared_err in M. destruct M as [-> _]. discriminate. }
     split; [exact Hall|].
     (* some array disagrees, found by scanning the (decidable) comparison *)
-    assert (Hex : Exists (fun s => dims_of dim r0 s <> dims_of dim r0 (hd [] l)) l \/
-                  Forall (fun s => dims_of dim r0 s = dims_of dim r0 (hd [] l)) l).
-    { generalize (dims_of dim r0 (hd [] l)). intros d0. clear. induction l as [|s t IH].
-      - right. constructor.
-      - destruct (list_eq_dec Nat.eq_dec (dims_of dim r0 s) d0) as [Hs|Hs].
-        + destruct IH as [IH|IH]; [left; apply Exists_cons_tl; exact IH|right; constructor; assumption].
-        + left. apply Exists_cons_hd. exact Hs. }
-    destruct Hex as [Hex|Hfa].
+    destruct (dims_scan (dims_of dim r0) (dims_of dim r0 (hd [] l)) l) as [Hex|Hfa].
     + apply Exists_exists in Hex. exact Hex.
-    + exfalso. assert (Ok tt = Err ValueErr :> result unit); [|discriminate].
+    + exfalso. assert (X : Err ValueErr = Ok tt :> result unit); [|discriminate X].
       apply Hok. split; [exact Hall|]. apply Forall_forall. exact Hfa.
 Qed.
 
@@ -504,9 +536,6 @@ Proof.
   inversion H as [|? a' ? l1 Ha H1]. subst. inversion H1. subst. exists a'. auto.
 Qed.
 
-Lemma hd_nonempty : forall (s s' : shape), s <> [] -> hd 0 s' = hd 0 s -> shape_size s' = shape_size s -> s' <> [] \/ shape_size s = 1.
-Proof. intros s s' _ _ Hs. destruct s'; [right; rewrite <- Hs; reflexivity|left; discriminate]. Qed.
-
 Lemma e2d_nonempty : forall s s', s <> [] -> e2d_one s = Ok s' -> s' <> [] /\ hd 0 s' = hd 0 s.
 Proof.
   intros s s' Hne H. rewrite e2d_spec in H. destruct s as [|n [|m t]]; [contradiction| |]; inversion H; split; try discriminate; reflexivity.
@@ -514,9 +543,7 @@ Qed.
 
 Lemma ev_nonempty : forall s s', s <> [] -> ev_one s = Ok s' -> s' <> [] /\ hd 0 s' = hd 0 s.
 Proof.
-  intros s s' Hne H. rewrite ev_spec in H. destruct s as [|n [|m t]]; [contradiction| |].
-  - inversion H. split; [discriminate|reflexivity].
-  - destruct m as [|[|m]]; try discriminate. inversion H. split; [discriminate|reflexivity].
+  intros s s' Hne H. destruct (ev_result_is_vector s s' Hne H) as [-> _]. split; [discriminate|reflexivity].
 Qed.
 
 Lemma e1d_nonempty : forall s s', s <> [] -> e1d_one s = Ok s' -> s' <> [] /\ hd 0 s' = hd 0 s.
@@ -535,7 +562,7 @@ Proof.
   destruct (equal_dims_rejects_length_mismatch [a'; b'] None b') as [e He]; auto.
   - right. left. reflexivity.
   - cbn [hd]. congruence.
-  - rewrite He in H2. discriminate.
+  - pose proof (eq_trans (eq_sym He) H2) as X. discriminate X.
 Qed.
 
 Theorem phase_align_rejects_mismatch : forall a b,
@@ -548,7 +575,7 @@ Proof.
   destruct (equal_dims_rejects_length_mismatch [a'; b'] None b') as [e He]; auto.
   - right. left. reflexivity.
   - cbn [hd]. congruence.
-  - rewrite He in H2. discriminate.
+  - pose proof (eq_trans (eq_sym He) H2) as X. discriminate X.
 Qed.
 
 Theorem cycle_vector_mask_rejects_mismatch : forall a b,
@@ -561,7 +588,7 @@ Proof.
   destruct (equal_dims_rejects_length_mismatch [a'; b'] (Some 0) b') as [e He]; auto.
   - right. left. reflexivity.
   - cbn [hd]. congruence.
-  - rewrite He in H2. discriminate.
+  - pose proof (eq_trans (eq_sym He) H2) as X. discriminate X.
 Qed.
 
 Theorem bin_by_phase_rejects_mismatch : forall ip x,
@@ -569,13 +596,13 @@ Theorem bin_by_phase_rejects_mismatch : forall ip x,
 Proof.
   intros a b Ha Hb Hne. apply not_ok_err. intros l H. unfold bin_by_phase_validate in H.
   apply bind_ok in H. destruct H as [l2 [H1 H2]].
-  apply map_result_one in H1. destruct H1 as [a' [-> Ea]]. cbn [app] in H2.
+  apply map_result_one in H1. destruct H1 as [a' [-> Ea]]. cbv beta zeta in H2. cbn [app] in H2.
   apply bind_ok in H2. destruct H2 as [u [H2 _]].
   destruct (ev_nonempty a a' Ha Ea) as [Ha' Hha].
   destruct (equal_dims_rejects_length_mismatch [a'; b] (Some 0) b) as [e He]; auto.
   - right. left. reflexivity.
   - cbn [hd]. congruence.
-  - rewrite He in H2. discriminate.
+  - pose proof (eq_trans (eq_sym He) H2) as X. discriminate X.
 Qed.
 
 Theorem bin_by_phase_weights_rejects_mismatch : forall ip x w,
@@ -586,18 +613,18 @@ Proof.
   apply bind_ok in H. destruct H as [l2 [H1 H2]].
   apply map_result_one in H1. destruct H1 as [a' [-> Ea]].
   apply bind_ok in H2. destruct H2 as [lw [H3 H2]].
-  apply map_result_one in H3. destruct H3 as [w' [-> Ew]]. cbn [app] in H2.
+  apply map_result_one in H3. destruct H3 as [w' [-> Ew]]. cbv beta zeta in H2. cbn [app] in H2.
   apply bind_ok in H2. destruct H2 as [u [H2 _]].
   destruct (ev_nonempty a a' Ha Ea) as [Ha' Hha]. destruct (e1d_nonempty w w' Hw Ew) as [Hw' Hhw].
   destruct Hne as [Hne|Hne].
   - destruct (equal_dims_rejects_length_mismatch [a'; b; w'] (Some 0) b) as [e He]; auto.
     + right. left. reflexivity.
     + cbn [hd]. congruence.
-    + rewrite He in H2. discriminate.
+    + pose proof (eq_trans (eq_sym He) H2) as X. discriminate X.
   - destruct (equal_dims_rejects_length_mismatch [a'; b; w'] (Some 0) w') as [e He]; auto.
     + right. right. left. reflexivity.
     + cbn [hd]. congruence.
-    + rewrite He in H2. discriminate.
+    + pose proof (eq_trans (eq_sym He) H2) as X. discriminate X.
 Qed.
 
 Theorem holospectrum_rejects_mismatch : forall a b c,
@@ -615,11 +642,11 @@ Proof.
   - destruct (equal_dims_rejects_length_mismatch [a'; b'; c'] (Some 0) b') as [e He]; auto.
     + right. left. reflexivity.
     + cbn [hd]. congruence.
-    + rewrite He in H2. discriminate.
+    + pose proof (eq_trans (eq_sym He) H2) as X. discriminate X.
   - destruct (equal_dims_rejects_length_mismatch [a'; b'; c'] (Some 0) c') as [e He]; auto.
     + right. right. left. reflexivity.
     + cbn [hd]. congruence.
-    + rewrite He in H2. discriminate.
+    + pose proof (eq_trans (eq_sym He) H2) as X. discriminate X.
 Qed.
 
 (* ... and vectors / single columns of equal length are accepted, in every combination *)
